@@ -7,7 +7,9 @@ THEOREMS = ['C17.read_write', 'C17.write_iff_validate', 'C17.write_canonical', '
 TRUSTED = ['crypto/x509.ParseCertificate is the parameter parseOk of the model (Raw = input is stdlib behaviour); answers supplied by oracle.cert']
 ASSUMPTIONS = ['certificates handed to the writer are parsed x509 certificates (Cert.Raw is their DER)']
 RULE = ('cert.write / cert.read / sct.ser: chains of 0..4 generated certificates (P-256/P-384/P-521) x OCSP / SCT blobs of lengths 0,1,23,24,255,256,65535,65536 x presence patterns (OCSP on leaf only / on non-leaf / missing), '
-        'read of written chains, of mutated chains (every CBOR head x boundary values, truncations, key renames, duplicate keys, wrong magic), SCT lists of 0..n elements with sizes 0, 65533..65536 and totals around 65535; distinct = op lines')
+        'read of written chains, of mutated chains (every CBOR head x boundary values, truncations, key renames, duplicate keys, wrong magic), SCT lists of 0..n elements with sizes 0, 65533..65536 and totals around 65535; '
+        'order of the list: well-formed v1 SCTs (version, log id, timestamp, extensions, signature) given in NON-ascending order of timestamp / log id / version / length / content: '
+        'every ordered pair of timestamp edge values, all arrangements of 3 and 4, one differing timestamp byte, shape thresholds 40/41/42 bytes, one odd element at every position; distinct = op lines')
 EXHAUSTIVE = {}
 
 agree = Base.agree; nontrivial = Base.nontrivial; signature = Base.signature; explain = Base.explain
@@ -108,4 +110,56 @@ def run(ctx):
         ops.append('sct.ser ' + ','.join(hexs(e_) if e_ else '-' for e_ in els))
     for _ in range(100 if not thorough else 2000):
         ops.append('sct.ser ' + (','.join(hexs(rbytes(rng, rng.choice([0, 1, 5, 100, 300]))) for _ in range(rng.randrange(0, 6))) or '.'))
+    ops += sct_v1_order_ops()
     ctx.both(ops)
+
+
+def v1_sct(tag, ts, version=0, tail=None):
+    """an element with the layout of an RFC 6962 v1 SCT: version, 32-byte log id, 8-byte timestamp, extensions, digitally-signed"""
+    if tail is None:
+        tail = b'\x00\x00' + b'\x04\x03' + b'\x00\x08' + bytes([0x30, 0x06, 0x02, 0x01, tag, 0x02, 0x01, tag])
+    return bytes([version]) + bytes([tag]) * 32 + (ts % 2**64).to_bytes(8, 'big') + tail
+
+
+def sct_v1_order_ops():
+    """"exactly the given SCTs IN ORDER": lists of well-formed SCTs whose fields (timestamp, log id, version, extensions, length) are NOT
+    in ascending order as given, so that any normalisation of the list (sorting by a field, grouping, reversing) shows. Deterministic."""
+    ops = []
+    def line(els): return 'sct.ser ' + ','.join(hexs(e_) for e_ in els)
+    # (1) every ordered pair of timestamps from the edge values of a uint64 / int64 / millisecond clock (relation: later-first, equal, earlier-first)
+    edge = [0, 1, 255, 256, 2**32 - 1, 2**32, 1600000000000, 1650000000000, 1700000000000, 2**63 - 1, 2**63, 2**64 - 1]
+    for a in edge:
+        for b_ in edge:
+            ops.append(line([v1_sct(0xa1, a), v1_sct(0xb2, b_)]))
+    # (2) every arrangement of three and four well-formed SCTs with distinct timestamps (log ids in the opposite order of the timestamps too)
+    for n in (3, 4):
+        ts = [1600000000000 + 50000000000 * i for i in range(n)]
+        for p in itertools.permutations(range(n)):
+            ops.append(line([v1_sct(0xa1 + 0x11 * j, ts[i]) for j, i in enumerate(p)]))
+            ops.append(line([v1_sct(0xe1 - 0x11 * j, ts[i]) for j, i in enumerate(p)]))
+    # (3) timestamps that differ in exactly one of the 8 bytes, later one first; and equal timestamps with descending log ids / versions / tails
+    for byte in range(8):
+        ops.append(line([v1_sct(0xa1, 2 << (8 * byte)), v1_sct(0xb2, 1 << (8 * byte))]))
+    ops.append(line([v1_sct(0xb2, 5), v1_sct(0xa1, 5)]))
+    ops.append(line([v1_sct(0xa1, 5, version=1), v1_sct(0xa1, 5, version=0)]))
+    ops.append(line([v1_sct(0xa1, 5, tail=b'\x00\x01z' + b'\x04\x03\x00\x01q'), v1_sct(0xa1, 5, tail=b'\x00\x00' + b'\x04\x03\x00\x01q')]))
+    # (4) the shape thresholds: exactly 41 bytes (no extensions / signature), 40 and 42, descending timestamps; one element of another shape
+    # anywhere in an otherwise well-formed descending list (version 1, 40 bytes, empty, 3 bytes)
+    for tl in (0, 1, 2, 6, 100, 1000):
+        ops.append(line([v1_sct(0xa1, 9, tail=bytes(tl)), v1_sct(0xb2, 3, tail=bytes(tl))]))
+        ops.append(line([v1_sct(0xa1, 9, tail=bytes(tl)), v1_sct(0xb2, 3)]))
+    ops.append(line([v1_sct(0xa1, 9)[:40], v1_sct(0xb2, 3)[:40]]))
+    ops.append(line([v1_sct(0xa1, 9)[:40], v1_sct(0xb2, 3)]))
+    for odd in (v1_sct(0xc3, 1, version=1), v1_sct(0xc3, 1)[:40], b'abc', v1_sct(0xc3, 1, version=255)):
+        for pos in range(3):
+            els = [v1_sct(0xa1, 9), v1_sct(0xb2, 3)]
+            els.insert(pos, odd)
+            ops.append(line(els))
+    # (5) descending by length, by first byte, by whole content (elements that are not SCT-shaped at all), and a long descending run
+    ops.append(line([b'c' * 50, b'b' * 45, b'a' * 41]))
+    ops.append(line([b'\x00' + b'z' * 49, b'\x00' + b'y' * 44, b'\x00' + b'x' * 40]))
+    ops.append(line([b'zz', b'yy', b'xx', b'ww']))
+    ops.append(line([b'long' * 20, b'mid' * 5, b's']))
+    ops.append(line([v1_sct(i % 256, 2000 - i) for i in range(60)]))
+    ops.append(line([v1_sct(i % 256, (i * 7919) % 101) for i in range(60)]))
+    return ops
